@@ -33,12 +33,22 @@ def atomOfJson (j : Json) : Option Atom := do
       pure (Atom.ts t v)
   | _ => none
 
+/-- a tuple side: `{"k": "none"}` is Python's `None` -/
+def sideOfJson (j : Json) : Option (Option Atom) :=
+  if getStr j "k" == some "none" then some none else (atomOfJson j).map some
+
+def sideJ : Option Atom → Json
+  | none => Json.mkObj [("k", "none")]
+  | some a => match a with
+    | .num x => Json.mkObj [("k", "num"), ("v", x.toJson)]
+    | .ts t v => Json.mkObj [("k", "ts"), ("t", ratsJ t), ("v", xvalsJ v)]
+
 def valOfJson (j : Json) : Option Val := do
   let k ← getStr j "k"
   match k with
   | "tup" => do
       let xs ← getArr j "v"
-      let xs ← xs.mapM atomOfJson
+      let xs ← xs.mapM sideOfJson
       pure (Val.tup xs)
   | "list" => do
       let xs ← getArr j "v"
@@ -52,7 +62,7 @@ def atomJ : Atom → Json
 
 def valJ : Val → Json
   | .atom a => atomJ a
-  | .tup xs => Json.mkObj [("k", "tup"), ("v", Json.arr (xs.map atomJ).toArray)]
+  | .tup xs => Json.mkObj [("k", "tup"), ("v", Json.arr (xs.map sideJ).toArray)]
   | .list xs => Json.mkObj [("k", "list"), ("v", Json.arr (xs.map atomJ).toArray)]
 
 def itemsJ (l : List (VName × Val)) : Json :=
